@@ -702,7 +702,7 @@ def range_history(draw, shard, tier):
     for _ in range(draw(st.integers(2, 8))):
         k = draw(st.sampled_from(["set_inclusive", "set_start", "set_stop", "set_step", "reverse", "reverse",
                                   "iterate_partially", "len", "contains", "clone_range", "take_iter", "take_iter",
-                                  "advance", "advance", "advance", "zip", "nested", "product"]))
+                                  "advance", "advance", "advance", "zip", "nested", "product", "twin_interleave", "fork"]))
         op = dict(op=k)
         if k == "set_inclusive":
             op["value"] = draw(st.booleans())
@@ -790,6 +790,7 @@ def check_range_history(case):
     base = at(us, 0, "TAI")
     invariant("construction")
     mutated = False
+    forks = []
     live = []  # iterators taken from the range and still alive: [iterator, position, expected list]
     concurrent = False
     for op in case["ops"]:
@@ -846,6 +847,25 @@ def check_range_history(case):
                                         f"the range was listed in between")
                     ent[1] += 1
                 concurrent = True
+        elif k == "twin_interleave":
+            # a second range built from the same arguments is walked in turns with this one
+            want = model()
+            twin = Date.range(rng.start, rng.stop, rng.step, inclusive=rng.inclusive)
+            a, b = iter(rng), iter(twin)
+            got_a, got_b = [], []
+            for _ in range(len(want) + 2):
+                x, y = next(a, None), next(b, None)
+                if x is not None:
+                    got_a.append(td_us(x - base))
+                if y is not None:
+                    got_b.append(td_us(y - base))
+            if got_a != want or got_b != want:
+                raise Violation("range-concurrent-iterators", f"DateRange after {done + [k]}: walked in turns with a twin built from "
+                                                              f"the same arguments: {len(got_a)} / {len(got_b)} dates, expected {len(want)}")
+            concurrent = True
+        elif k == "fork":
+            # a clone is taken BEFORE later in-place changes: it must keep listing what the range was then
+            forks.append((gd.clone(rng, "deepcopy" if len(forks) % 2 else "pickle"), model(), list(done)))
         elif k in ("zip", "nested", "product"):
             want = model()
             if len(want) <= 12:
@@ -880,6 +900,11 @@ def check_range_history(case):
                 raise Violation("range-history-contains", f"DateRange after {done}: membership of {op['probe']} wrong")
         done.append(k)
         invariant(k)
+    for f, want, when in forks:
+        got = [td_us(x - base) for x in f]
+        if got != want or len(f) != len(want):
+            raise Violation("range-fork", f"a clone of the DateRange taken after {when} lists {len(got)} dates after the original "
+                                          f"was changed in place ({done[len(when):]}), it listed {len(want)} when it was taken")
     cls = [f"eop:{cfg()}"] + sorted({o["op"] for o in case["ops"]})
     return dict(nt=mutated or concurrent, cls=cls + _cl + (["several-iterations-alive-at-once"] if concurrent else []))
 
@@ -943,6 +968,37 @@ def check_ctor(case):
             raise Violation("ctor-form", f"Date built from {name} = {x}, from datetime = {ref}")
     if abs(reading_us(ref) - r[S]) > (0 if S in iers.EXACT else 1):
         raise Violation("constructor-reading", f"Date(datetime {dt}, {S}).datetime = {ref.datetime}")
+    # the formatting entry points print the reading in the date's own scale
+    iso = dt.isoformat()
+    shown = {"str": str(ref), "format": f"{ref}", "format-spec": f"{ref:%Y-%m-%dT%H:%M:%S.%f}", "strftime": ref.strftime(fmt),
+             "repr": repr(ref)}
+    want_shown = {"str": f"{iso} {S}", "format": f"{iso} {S}", "format-spec": dt.strftime(fmt), "strftime": dt.strftime(fmt),
+                  "repr": f"<Date '{iso} {S}'>"}
+    if S in iers.EXACT and shown != want_shown:
+        bad = sorted(k for k in shown if shown[k] != want_shown[k])
+        raise Violation("date-formatting", f"{bad[0]} of Date({dt}, {S}) gives {shown[bad[0]]!r}, expected {want_shown[bad[0]]!r}")
+    # a Date is immutable: a refused assignment leaves it as it was
+    before = (reading_us(ref), str(ref.scale), hash(ref), ref._d, float(ref._s))
+    for attr, value in (("scale", "TAI"), ("_d", 0), ("d", 0), ("eop", None)):
+        try:
+            setattr(ref, attr, value)
+        except (TypeError, AttributeError):
+            pass
+        else:
+            raise Violation("date-mutable", f"Date.{attr} = {value!r} was accepted")
+    try:
+        ref + 3
+    except TypeError:
+        pass
+    else:
+        raise Violation("date-add-type", "Date + 3 was accepted")
+    if (reading_us(ref), str(ref.scale), hash(ref), ref._d, float(ref._s)) != before:
+        raise Violation("date-mutable", f"a refused assignment changed {ref}")
+    if cfg() != "real":
+        # Date.now(scale): the current instant under that label (needs no table under these configurations)
+        n0, n1 = Date.now(), Date.now(S)
+        if str(n1.scale) != S or not (0 <= (n1 - n0).total_seconds() < 5):
+            raise Violation("date-now", f"Date.now({S}) = {n1}, Date.now() = {n0}")
     # float MJD: the resolution of a double at MJD 5e4 is 0.63 us
     mjd = day + sec / 86400.0
     x = Date(mjd, scale=S)
